@@ -480,3 +480,80 @@ end XPathV.Theorems.NonVacuity.C02
 section AxiomAudit
 open XPathV.Theorems.NonVacuity.C02
 end AxiomAudit
+
+/-! ## `C02_from_text_full`: the extended fragment from the expression text -/
+namespace XPathV.Theorems.NonVacuity.C02
+open XPathV XPathV.Model XPathV.Theorems.NonVacuity XPathV.PosSem
+open XPathV.PathSem XPathV.PredSem XPathV.PredSem2
+
+attribute [local instance] toyAlg
+
+/-- `C02_from_text_full` at the text `a[b < c]` (`hparse`, `hfrag` with `Frag2.cmpPath`), then its
+second disjunct's inner hypotheses (`WF`, `nsIface`, `HashInj`, `validRef`) on `d1` from `r`:
+`Select` and `Evaluate` on the compiled text yield the third `a` (8 < 10) and only it -/
+theorem C02_from_text_full_instance : ∃ p l, compile {} none "a[b < c]".toList = .ok p ∧
+    selectAll (F := Int) d1 {} p (.node 1) = .ok l ∧
+    evaluate (F := Int) d1 {} p (.node 1) = .ok (.nodes l) ∧ ∀ x, x ∈ l ↔ x ∈ [Ref.node 12] := by
+  rcases Theorems.C02.C02_from_text_full (fun _ => true) none _ pLt pLt_parsed pLt_frag with
+    ⟨e, he⟩ | ⟨p, hp, _, h⟩
+  · exact absurd he (by
+      have : (compile {} none "a[b < c]".toList).isOk = true := by decide +kernel
+      intro h'; rw [h'] at this; cases this)
+  · obtain ⟨l, nsl, h1, h2, h3, h4⟩ := h Int d1 wf_d1 {} rfl hashInj_d1 (.node 1) (by decide)
+    have e : Spec.evalTop (F := Int) d1 pLt (.node 1) = .ok (.nodes [.node 12]) := by
+      decide +kernel
+    rw [e] at h3; cases h3
+    exact ⟨p, l, hp, h1, h2, h4⟩
+
+/-- `(a)[b = c]`: a parenthesised path with a predicate at top level -/
+def pG : Ast := .filter (.group pE0) bE
+
+theorem pG_parsed : ParsesTo "(a)[b = c]" pG := ApiSem.parsesTo_eq (by decide +kernel)
+
+theorem pG_frag : Frag2 true pG :=
+  .gfilter _ _ pE0_frag (.cmpPath _ _ _ (by decide) (.axis _ _ .none (by decide)) (.axis _ _ .none (by decide)))
+
+/-- `C02_from_text_full` at the text `(a)[b = c]` (`Frag2.gfilter` at top level: the compiled plan
+is path-shaped, `Evaluate` returns the node-set), all hypotheses discharged on `d1` from `r`: the
+second `a` (`b` = `c` = "7") -/
+theorem C02_from_text_full_group_instance : ∃ p l, compile {} none "(a)[b = c]".toList = .ok p ∧
+    selectAll (F := Int) d1 {} p (.node 1) = .ok l ∧
+    evaluate (F := Int) d1 {} p (.node 1) = .ok (.nodes l) ∧ ∀ x, x ∈ l ↔ x ∈ [Ref.node 7] := by
+  rcases Theorems.C02.C02_from_text_full (fun _ => true) none _ pG pG_parsed pG_frag with
+    ⟨e, he⟩ | ⟨p, hp, _, h⟩
+  · exact absurd he (by
+      have : (compile {} none "(a)[b = c]".toList).isOk = true := by decide +kernel
+      intro h'; rw [h'] at this; cases this)
+  · obtain ⟨l, nsl, h1, h2, h3, h4⟩ := h Int d1 wf_d1 {} rfl hashInj_d1 (.node 1) (by decide)
+    have e : Spec.evalTop (F := Int) d1 pG (.node 1) = .ok (.nodes [.node 7]) := by
+      decide +kernel
+    rw [e] at h3; cases h3
+    exact ⟨p, l, hp, h1, h2, h4⟩
+
+/-- `d1` has no attributes at all -/
+theorem attrTriples_d1 : AttrTriplesDistinct d1 := by
+  intro i k₁ k₂ hi h₁ _ _ _ _
+  have h0 : ∀ j, j < 17 → (recAt d1 j).attrs.length = 0 := by decide
+  rw [h0 i hi] at h₁
+  exact absurd h₁ (Nat.not_lt_zero _)
+
+/-- the `_unconditional` form at `a[b < c]`: `AttrTriplesDistinct d1` instead of `HashInj` -/
+theorem C02_from_text_full_unconditional_instance :
+    ∃ p l, compile {} none "a[b < c]".toList = .ok p ∧
+    selectAll (F := Int) d1 {} p (.node 1) = .ok l ∧ ∀ x, x ∈ l ↔ x ∈ [Ref.node 12] := by
+  rcases Theorems.C02.C02_from_text_full_unconditional (fun _ => true) none _ pLt pLt_parsed pLt_frag with
+    ⟨e, he⟩ | ⟨p, hp, _, h⟩
+  · exact absurd he (by
+      have : (compile {} none "a[b < c]".toList).isOk = true := by decide +kernel
+      intro h'; rw [h'] at this; cases this)
+  · obtain ⟨l, nsl, h1, _, h3, h4⟩ := h Int d1 wf_d1 {} rfl attrTriples_d1 (.node 1) (by decide)
+    have e : Spec.evalTop (F := Int) d1 pLt (.node 1) = .ok (.nodes [.node 12]) := by
+      decide +kernel
+    rw [e] at h3; cases h3
+    exact ⟨p, l, hp, h1, h4⟩
+
+end XPathV.Theorems.NonVacuity.C02
+
+section AxiomAudit2
+open XPathV.Theorems.NonVacuity.C02
+end AxiomAudit2
